@@ -71,6 +71,14 @@ SetOpsNonFinite == {<<"float", <<78, 97, 78>>>>, <<"float", <<73, 110, 102>>>>, 
 \* every byte that must be escaped, DEL, and multi-byte UTF-8, as key and as value
 ByteStrs == {<<b>> : b \in 0..127} \cup {<<195, 169>>, <<226, 130, 172>>, <<240, 159, 152, 128>>, <<92, 34, 47, 8, 12, 10, 13, 9>>, <<1, 31, 127, 34>>}
 DocsBytes == {<<<<"o", <<<<k, <<"s", k>>>>>>>>>> : k \in ByteStrs} \cup {<<<<"a", <<<<"s", k>>, <<"o", <<<<k, n>>, <<ka, t>>>>>>>>>>>> : k \in ByteStrs}
+\* one byte (every value < 0x80) at every position 0..17 of a string padded with letters, followed by 0 / 7 / 16 more letters;
+\* and two bytes that need escaping at every pair of positions: word-at-a-time or SIMD scanning in the escaper has to get every
+\* lane right (as key and as value)
+Pad(len_, from) == [i \in 1..len_ |-> 97 + ((from + i) % 26)]
+BytePosStrs == {Pad(p_, 0) \o <<b>> \o Pad(q_, p_) : b \in 0..127, p_ \in 0..17, q_ \in {0, 7, 16}}
+                 \cup {Pad(p1, 0) \o <<b1>> \o Pad(p2, p1) \o <<b2>> \o Pad(3, 5) : b1 \in {31, 34, 92, 10}, b2 \in {31, 34, 92, 10},
+                                                                                   p1 \in 0..9, p2 \in 0..9}
+DocsBytePos == {<<<<"o", <<<<k, <<"s", k>>>>>>>>>> : k \in BytePosStrs}
 SetOpsNull == {<<"null", 0>>, <<"str", <<122>>>>}
 FilterKeysDef == {<<122>>}
 =============================================================================
